@@ -1911,14 +1911,20 @@ impl StorageEngine {
                 Value::String(bytes) => {
                     let len = bytes.len() as isize;
                     
+                    // Nothing to return for an empty string or a reversed negative range
+                    if len == 0 || (start < 0 && end < 0 && start > end) {
+                        return Ok(Vec::new());
+                    }
+                    
                     let start = if start < 0 {
-                        std::cmp::max(0, len + start) as usize
+                        std::cmp::max(0, len.saturating_add(start)) as usize
                     } else {
                         start as usize
                     };
                     
+                    // An end before the first byte is clamped to 0, as in Redis
                     let end = if end < 0 {
-                        std::cmp::max(-1, len + end) as usize
+                        std::cmp::max(0, len.saturating_add(end)) as usize
                     } else {
                         std::cmp::min(end as usize, len as usize - 1)
                     };
